@@ -57,7 +57,8 @@ def render_attr(entries, trailing, style, spacing):
             parts.append(e["key"])
         else:
             sep = "," if spacing == "compact" else ", "
-            parts.append(e["key"] + "(" + sep.join(lit(x, style) for x in e["items"]) + ")")
+            # (a trailing comma inside the list is legal attribute syntax too)
+            parts.append(e["key"] + "(" + sep.join(lit(x, style) for x in e["items"]) + ("," if spacing == "airy" and e["items"] else "") + ")")
     sep = "," if spacing == "compact" else (" ,\n    " if spacing == "airy" else ", ")
     body = sep.join(parts) + ("," if trailing else "")
     if spacing == "airy":
